@@ -199,6 +199,7 @@ package stream
 //verif:ensures[threshold-exceeded-is-fatal] called("(*dlqWindow).Nack") && !result_of("(*dlqWindow).Nack", 0) && n.WindowNackThreshold > 0 ==> is_fatal(err)
 //verif:ensures[threshold-exceeded-is-error] called("(*dlqWindow).Nack") && !result_of("(*dlqWindow).Nack", 0) && nackMetadata.Reason != nil ==> err != nil
 //verif:ensures[not-running-is-error] !succeeded("(*ValueWatcher).Watch") ==> err != nil
+//verif:ensures[dlq-write-failure-is-fatal] called("DLQHandler.Write") && !succeeded("DLQHandler.Write") ==> is_fatal(err)
 
 //verif:closure of (*DLQHandlerNode).Nack calling (*ValueWatcher).Set (err, n)
 //verif:call[broken-only-on-failure] (*ValueWatcher).Set requires deref(err) != nil && arg1 == dlqHandlerNodeStateBroken
